@@ -408,7 +408,13 @@ type c03Machine struct {
 	succ                           int
 	invalidAfter3, readAfterDelete bool
 	deleted                        bool
+	// first outcome seen for the "either" classes whose outcome may not depend on the history: a key that was
+	// never put and a key that was removed are the same plain state
+	eitherSeen map[string]string
 }
+
+// stateOnlyEither: "either" classes in which the plain state decides everything the call can depend on.
+var stateOnlyEither = map[string]bool{"remove of an absent key": true, "delete of an absent member": true}
 
 // checkCall compares one executed call with the model's expectation; inTx = no emission accounting.
 func (m *c03Machine) checkCall(c sim.Call, res sim.Result, emitted int, inTx bool) error {
@@ -432,6 +438,20 @@ func (m *c03Machine) checkCallEx(c sim.Call, res sim.Result, emitted int, inTx b
 	}
 	if ex.class == mustOK && failed {
 		return fmt.Errorf("%s must succeed on a plain %s but returned %s", c, m.kind, res)
+	}
+	if ex.class == either && stateOnlyEither[ex.why] {
+		out := "succeeded"
+		if failed {
+			out = "returned an error"
+		}
+		if m.eitherSeen == nil {
+			m.eitherSeen = map[string]string{}
+		}
+		if prev, ok := m.eitherSeen[ex.why]; ok && !strings.HasPrefix(prev, out) {
+			return fmt.Errorf("%s (%s) %s, but the same kind of call on the same plain state %s earlier in this history: the outcome depends on something a plain %s does not have", c, ex.why, out, prev, m.kind)
+		} else if !ok {
+			m.eitherSeen[ex.why] = out + " for " + c.String()
+		}
 	}
 	if failed {
 		if !inTx && emitted != 0 {
